@@ -280,6 +280,20 @@ func runC06(c *fw.Ctx) {
 				shape = []string{"group:" + msgName(gm[0])}
 			}
 		}
+		// a second signer contributing an unrelated transfer and named as the explicit fee payer: the
+		// fee - and the question whether it can be covered - is then that account's
+		signers := []lab.Acct{signer}
+		payer := signer
+		if nesting != "group-exec-try" && r.Chance(9) {
+			co := ac[r.Intn(len(ac))]
+			if !co.Addr.Equals(signer.Addr) {
+				txMsgs = append(append([]sdk.Msg{}, txMsgs...), banktypes.NewMsgSend(co.Addr, ac[4].Addr, sdk.NewCoins(sdk.NewInt64Coin(lab.DenomBig, 1))))
+				signers = append(signers, co)
+				payer = co
+				nesting += "/explicit-payer"
+				c.Count("explicit_payer_txs", 1)
+			}
+		}
 		leaves, nestedFlags := Flatten(txMsgs)
 		want, nW, nB := fo.expected(leaves)
 		// --- fee set
@@ -351,16 +365,22 @@ func runC06(c *fw.Ctx) {
 				extra = "extra-denom"
 			}
 		}
-		spec := lab.TxSpec{Msgs: txMsgs, Signers: []lab.Acct{signer}, Fee: offered, Gas: 2_000_000}
+		spec := lab.TxSpec{Msgs: txMsgs, Signers: signers, Fee: offered, Gas: 2_000_000}
+		if len(signers) > 1 {
+			spec.Payer = payer.Addr
+		}
 		bz, err := L.BuildTx(spec)
 		if err != nil {
 			continue
 		}
-		payerPre := obs.Accts[signer.Addr.String()]
+		payerPre := obs.Accts[payer.Addr.String()]
 		chk := L.Check(bz)
 		c.Count("checktx", 1)
 		admitted := chk.Code == 0
 		desc := fmt.Sprintf("%s by a%d fee=%s (exact %s)", descMsgs(txMsgs), g.idx(signer), offered, want)
+		if len(signers) > 1 {
+			desc += fmt.Sprintf(" payer=a%d", g.idx(payer))
+		}
 		e.tracef("checktx %s -> code=%d %s", desc, chk.Code, firstN(chk.Log, 100))
 		c.Distinct(fmt.Sprintf("%s/%s/%s/%s/admitted=%v", strings.Join(shape, "+"), nesting, rel, extra, admitted))
 		if !admitted {
@@ -429,7 +449,7 @@ func runC06(c *fw.Ctx) {
 			}
 			// evaluated only when the fee itself was right (a wrong admitted fee is reported above)
 			if offered.AmountOf(d).Equal(want.AmountOf(d)) && have.LT(want.AmountOf(d)) {
-				c.Violate("admitted-payer-cannot-cover", sig, "payer a%d had %s%s liquid+locked at admission, operations cost %s%s | %s", g.idx(signer), have, d, want.AmountOf(d), d, desc)
+				c.Violate("admitted-payer-cannot-cover", sig, "payer a%d had %s%s liquid+locked at admission, operations cost %s%s | %s", g.idx(payer), have, d, want.AmountOf(d), d, desc)
 			}
 		}
 	}
